@@ -38,7 +38,10 @@ RULE = ("each run draws a pipeline (Sequence or Source form, 1-2 Cache elements,
         " context object, values that hold one object several times, an element behind the cache"
         " that updates contexts in place, read errors (EIO) at a drawn read, a full disk (ENOSPC)"
         " when the buffered data goes out at close, and process crashes with torn writes (beyond"
-        " the quantifier: explored, not judged).")
+        " the quantifier: explored, not judged)."
+        " Also: the Source obtained from alter_sequence is kept and called again later, values of"
+        " many builtin types (sets, ranges, complex numbers, byte arrays), cache names so long"
+        " that the temporary name cannot be created (ENAMETOOLONG).")
 REAL = ["lena.flow.Cache", "lena.core.Sequence", "lena.core.Source", "lena.core.SourceEl",
         "lena.core.Run", "lena.core.alter_sequence", "lena.meta.SetContext", "pickle"]
 STUB = ["SimFS/SimOS (disk, os, open)", "SimSource (input flow)", "ProbeCall/ProbeRun/ProbeFC "
@@ -53,7 +56,7 @@ ASSUMPTIONS = [
     "Split decides about hoisting a filled Cache into a Source when it is constructed; histories "
     "that drop the cache behind an already constructed Split object are not generated",
 ]
-FAULT_KINDS = ["write-error-ENOSPC-at-close", "read-error-EIO", "consumer-stop-close", "consumer-stop-drop", "consumer-stop-hold", "raise-downstream",
+FAULT_KINDS = ["write-error-ENAMETOOLONG", "write-error-ENOSPC-at-close", "read-error-EIO", "consumer-stop-close", "consumer-stop-drop", "consumer-stop-hold", "raise-downstream",
                "raise-upstream-source", "raise-upstream-element", "drop_cache",
                "recompute", "process-crash"]
 EXPECTED_PROBES = ["values-of-many-builtin-types", "kept-hoisted-source-called-again", "hoisted-source-fails-loudly-without-its-cache", "held-run-finished-after-later-runs", "values-hold-one-object-twice", "write-error-surfaced-loudly", "held-generator-released-before-a-later-run", "other-object-ran-in-between", "downstream-updates-in-place", "source-reuses-one-context-object", "same-object-reused", "split-form-replay", "read-error-surfaced-loudly", "replay-run", "replay-after-interrupted-run", "stop-at-exact-length",
@@ -156,7 +159,8 @@ def gen_scenario(tape):
     sc.nmid = tape.draw(2, "nmid") if sc.ncaches == 2 else 0
     sc.npost = tape.draw(3, "npost")
     sc.post_kinds = [tape.choice(["call", "run"], "postkind") for _ in range(sc.npost)]
-    sc.fname_kind = [tape.choice(["plain", "dir", "formatted"], "fname") for _ in range(sc.ncaches)]
+    sc.fname_kind = [tape.weighted([(10, "plain"), (10, "dir"), (10, "formatted"), (1, "long")], "fname")
+                     for _ in range(sc.ncaches)]
     sc.protocol = tape.choice([2, 0, 1, 3, 4, 5], "protocol")
     sc.method = tape.choice(["cPickle", "pickle"], "method")
     sc.nest = tape.chance(1, 5, "nest")
@@ -256,6 +260,8 @@ FNAMES = {
     ("plain", 0): "c1.pkl", ("plain", 1): "c2.pkl",
     ("dir", 0): "cachedir/c1.pkl", ("dir", 1): "cachedir/sub/c2.pkl",
     ("formatted", 0): "{{tag}}_c1.pkl", ("formatted", 1): "{{tag}}_c2.pkl",
+    # names that are just short enough for the file system; a longer temporary name is not
+    ("long", 0): "L" * 246 + ".pkl", ("long", 1): "M" * 246 + ".pkl",
 }
 
 
@@ -562,12 +568,16 @@ def run(tape):
             eio_before = fs.fired.get("EIO", 0)
             if op.eio:
                 fs.eio_at = op.eio
+            toolong_before = fs.fired.get("ENAMETOOLONG", 0)
             enospc_before = fs.fired.get("ENOSPC-at-flush", 0)
             if getattr(op, "enospc", None):
                 fs.enospc_flush_at = op.enospc
             obs = execute_run(sc, op, log, r, res, fs, shared)
             fs.eio_at = None
             fs.enospc_flush_at = None
+            obs["nametoolong"] = fs.fired.get("ENAMETOOLONG", 0) > toolong_before
+            if obs["nametoolong"]:
+                res.fault("write-error-ENAMETOOLONG")
             obs["enospc"] = fs.fired.get("ENOSPC-at-flush", 0) > enospc_before
             if obs["enospc"]:
                 res.fault("write-error-ENOSPC-at-close")
@@ -603,7 +613,7 @@ def run(tape):
                     shared["held"][-1] = (g, {"exp": ms[0][1], "k": len(obs["out"]), "r": r})
             # bookkeeping for signatures and probes
             if not obs["model_complete"]:
-                if obs.get("enospc") and obs["exc"] == "OSError":
+                if (obs.get("enospc") or obs.get("nametoolong")) and obs["exc"] == "OSError":
                     last_interrupt = "write-error"
                 elif op.kind == "stop":
                     last_interrupt = "consumer-stop"
@@ -805,7 +815,7 @@ def judge(sc, op, r, obs, allowed, res, fs, ops_before, last_interrupt, interrup
             continue
         matching.append((combo, exp))
     obs["model_complete"] = all(e["complete"] for e in exps)
-    if (obs.get("eio") or obs.get("enospc")) and obs["exc"] == "OSError":
+    if (obs.get("eio") or obs.get("enospc") or obs.get("nametoolong")) and obs["exc"] == "OSError":
         # injected read error, relaxed oracle: the run may fail loudly; what it
         # delivered before must be a prefix of what some allowed state predicts;
         # caches it was dumping are interrupted (old complete cache or nothing).
